@@ -11,12 +11,17 @@ ASSUMPTIONS = [
   "delivery threads, all translated from /repo's source on this run; the priority queues are contract models (items leave by priority, then arrival; the real "
   "heap and FabricEvent ordering are the E1 part's subject), the registries are dict models whose values are python lists created at run time (list iterators "
   "advance one step at a time against the live list), subscriber queues are plain deques",
+  "E2 part, several publishers: 2-3 threads call the real ActiveFabricSource.publish (2+2, 3+1, 1+1+1 calls, equal priority); FabricEvent.__init__ is translated "
+  "as written and the class's numbering state is modelled from the real class (an itertools.count is one indivisible step, an int attribute a shared cell, a lock a "
+  "lock); the two fabric queues only record, per put, the number the item carries; asserted: a publish call that returned before another began has the smaller "
+  "number in both queues (what FabricEvent.__lt__, checked on the real heap by the E1 part, needs to keep equal priorities in publish order)",
   "priorities are symbolic ints (0..2) all the way through the real heap: heapq's comparisons call FabricEvent.__lt__ on them, the solver decides each comparison",
   "lag pattern: after publication i the delivery body consumes m_i items (concrete per partition, all patterns enumerated); at the end it drains the queue; "
   "phase interleaving only (whole loop iterations between publish calls)",
   "one subscriber queue per kind (fifo and lifo are checked separately)",
 ]
-OUTSIDE = ["more than n publications", "priorities outside 0..2 (only their order matters)", "interleavings inside one publish or one delivery iteration"]
+OUTSIDE = ["more than n publications", "priorities outside 0..2 (only their order matters)", "E1: interleavings inside one publish or one delivery iteration (E2 covers them)",
+           "more than 3 publishing threads / 4 concurrent publish calls"]
 EXPLANATION = ("Symbolic execution (CrossHair/z3) of publish + the real PriorityQueue + the delivery bodies with symbolic priorities and every lag "
                "pattern: oracle = a reference priority queue ordered by (priority, publication index) driven by the same lag pattern; the subscriber's "
                "contents must equal it. Confirmed over all paths = for every assignment of priorities and every lag pattern within the bound.")
@@ -158,10 +163,49 @@ def e2_specs(tier):
     out.append(dict(scenario="fabric_delivery", kwargs=kw, kind="safety", K=K, pred="fabric_overdelivery", timeout=to, replay="fabric_delivery_replay"))
     out.append(dict(scenario="fabric_delivery", kwargs=kw, kind="deadlock", K=K, pred="fabric_quiescent_wrong", timeout=to, replay="fabric_delivery_replay"))
     out.append(dict(scenario="fabric_delivery", kwargs=kw, kind="adequacy", K=K, timeout=to))
+  # several publishing threads: the numbering FabricEvent.__init__ gives (which FabricEvent.__lt__ uses among equal priorities) follows
+  # the order in which the publish calls returned / began
+  for (kw, K) in publisher_scenarios(tier):
+    out.append(dict(scenario="publishers", kwargs=kw, kind="reach", K=K, pred="publish_ordered_across_threads", timeout=to))
+    out.append(dict(scenario="publishers", kwargs=kw, kind="safety", K=K, pred="publish_order_bad", timeout=to, replay="publishers_replay"))
+    out.append(dict(scenario="publishers", kwargs=kw, kind="deadlock", K=K, pred="publishers_open", timeout=to, replay="publishers_replay"))
+    out.append(dict(scenario="publishers", kwargs=kw, kind="adequacy", K=K, timeout=to))
   return out
 
 
+def publisher_scenarios(tier):
+  if tier == "quick":
+    return [(dict(counts=(2, 2)), 18)]
+  return [(dict(counts=(2, 2)), 18), (dict(counts=(3, 1)), 18), (dict(counts=(1, 1, 1)), 14)]
+
+
+def publishers_signature(spec, r):
+  real = r["replay"]["real"]
+  if real["errors"]:
+    return ("publish-raised", "%s; schedule: %s" % (real["errors"], r["trace"]), True)
+  if spec["kind"] == "deadlock":
+    n = len(spec["kwargs"]["counts"])
+    return ("publisher-blocked-for-ever", "finished threads %s; schedule: %s" % (real["finished"], r["trace"]), len(real["finished"]) < n)
+  g = r.get("ghost") or {}
+  seqs = real["sequence_numbers"]
+  calls = [(t, k) for t, n in enumerate(spec["kwargs"]["counts"]) for k in range(n)]
+  wrong = []
+  for a in calls:
+    for b in calls:
+      before = (a[0] == b[0] and a[1] < b[1]) or (a[0] != b[0] and g.get("g.hb.%d.%d.%d.%d" % (a + b)) == 1)
+      if not before:
+        continue
+      for kind in ("fifo", "lifo"):
+        sa, sb = seqs.get("%s.%d.%d" % ((kind,) + a)), seqs.get("%s.%d.%d" % ((kind,) + b))
+        if sa is None or sb is None or not sa < sb:
+          wrong.append("%s: publish %d of thread %d (returned first) has number %s, publish %d of thread %d has %s" % (kind, a[1], a[0], sa, b[1], b[0], sb))
+  return ("publish-order-numbering", "publish calls from several threads: the real FabricEvent objects carry sequence numbers that do not follow the order of the "
+          "calls (FabricEvent.__lt__ then cannot keep equal priorities in publish order): %s; schedule: %s" % ("; ".join(wrong[:3]), r["trace"]), bool(wrong))
+
+
 def e2_signature(spec, r):
+  if spec["scenario"] == "publishers":
+    return publishers_signature(spec, r)
   real = r["replay"]["real"]
   script = spec["kwargs"]["script"]
   if real["errors"]:
@@ -184,7 +228,13 @@ def solver_part(tier, known):
   from vf.e2 import propbase, harness
   FUNCTIONS.extend(x for x in propbase.functions_of("fabric_delivery", e2_scenarios(tier)[0][0]) if x not in FUNCTIONS)
   n = 6 if tier == "quick" else 24
-  out = propbase.run(e2_specs(tier), known, e2_signature, jobs=8,
-                     differential=lambda: harness.fabric_delivery_differential(DIFF_KW, n, seed=41))
-  out["coverage"]["e2_bounds"] = [{"kwargs": k, "K": K} for k, K in e2_scenarios(tier)]
+  FUNCTIONS.extend(x for x in propbase.functions_of("publishers", publisher_scenarios(tier)[0][0]) if x not in FUNCTIONS)
+
+  def differential():
+    a = harness.fabric_delivery_differential(DIFF_KW, n, seed=41)
+    b = harness.publishers_differential(publisher_scenarios(tier)[0][0], n, seed=43)
+    return {"schedules": a["schedules"] + b["schedules"], "visible_operations": a["visible_operations"] + b["visible_operations"],
+            "disagreements": a["disagreements"] + [dict(x, schedule="publishers-%s" % x.get("schedule")) for x in b["disagreements"]]}
+  out = propbase.run(e2_specs(tier), known, e2_signature, jobs=8, differential=differential)
+  out["coverage"]["e2_bounds"] = [{"kwargs": k, "K": K} for k, K in e2_scenarios(tier) + publisher_scenarios(tier)]
   return out
